@@ -5,10 +5,12 @@
    list grows in file order, textual.cc:585-683).
    Built on Model/Xact.v: postings, finalize, the pool.
    Predicates: account / payee masks restricted to literal, case-insensitive substrings,
-   `amount < LIT`, `amount > LIT`, and ! & | over those.
+   `amount < LIT`, `amount > LIT`, the constants true / false, and ! & | == ?: over those.
+   Which operators the quick matcher handles is read from the source on every run
+   (Gen/PostPred.v): an operator whose case is absent there falls to the throw.
    Not modelled: rule lines with a cost, `$account` / %(format) account names, deferred notes,
    assert/check/expr lines of a rule, amount expressions. *)
-From LedgerV Require Import Base.Prelude Base.Round Gen.AutoXactRoot Model.Amount Model.Xact.
+From LedgerV Require Import Base.Prelude Base.Round Gen.AutoXactRoot Gen.PostPred Model.Amount Model.Xact.
 Local Open Scope Z_scope.
 
 Inductive pstate := SUncleared | SCleared | SPending.          (* item_t::state_t *)
@@ -35,14 +37,19 @@ Inductive pred : Type :=
 | PAmtGt (a : amount)          (* amount > a *)
 | PNot (p : pred)
 | PAnd (p q : pred)
-| POr (p q : pred).
+| POr (p q : pred)
+| PConst (b : bool)            (* the tokens `true` / `false`: a VALUE node holding a boolean *)
+| PEq (p q : pred)             (* p == q *)
+| PQuery (c p q : pred).       (* c ? p : q *)
 
 (* get_amount (post.cc): a null amount reads as the integer 0 *)
 Definition post_amount_value (p : post) : value :=
   match p_amt p with Some a => VAmt a | None => VInt 0 end.
 
 (* predicate_t::real_calc = expr_t::calc(...).to_boolean(), op.cc O_MATCH / O_LT / O_GT /
-   O_NOT / O_AND / O_OR (the last two short-circuit) *)
+   O_NOT / O_AND / O_OR (the last two short-circuit) / VALUE / O_EQ (both sides are evaluated, left
+   first; every node of this fragment yields a boolean value and value_t::is_equal_to compares two
+   booleans by `==`) / O_QUERY with its O_COLON (only the chosen branch is evaluated) *)
 Fixpoint pred_eval (payee : str) (p : post) (e : pred) : res bool :=
   match e with
   | PAcct s => Ok (substr_ci s (p_acct p))
@@ -52,24 +59,63 @@ Fixpoint pred_eval (payee : str) (p : post) (e : pred) : res bool :=
   | PNot q => do b <- pred_eval payee p q; Ok (negb b)
   | PAnd q r => do b <- pred_eval payee p q; if b then pred_eval payee p r else Ok false
   | POr q r => do b <- pred_eval payee p q; if b then Ok true else pred_eval payee p r
+  | PConst b => Ok b
+  | PEq q r => do a <- pred_eval payee p q; do b <- pred_eval payee p r; Ok (Bool.eqb a b)
+  | PQuery c q r => do b <- pred_eval payee p c; if b then pred_eval payee p q else pred_eval payee p r
   end.
 
-(* post_pred: None = `throw_(calc_error, "Unhandled operator")` *)
+(* post_pred: None = `throw_(calc_error, "Unhandled operator")`.  A case is taken as transcribed
+   here only when the source has it in exactly that form (Gen/PostPred.src_post_pred, regenerated
+   on every run); an operator without a case reaches `default: break;` and the throw.
+   O_MATCH is handled for `account =~ /mask/` only (payee =~ breaks out to the throw); O_EQ calls
+   post_pred on both sides (a throw on either side leaves the function); O_QUERY evaluates the
+   condition and the chosen branch only. *)
+Definition pp_ok (o : pp_op) : bool :=
+  match src_post_pred o with PpAsTranscribed => src_post_pred_frame | _ => false end.
+
 Fixpoint quick_eval (p : post) (e : pred) : option bool :=
   match e with
-  | PAcct s => Some (substr_ci s (p_acct p))
-  | PNot q => match quick_eval p q with Some b => Some (negb b) | None => None end
-  | PAnd q r => match quick_eval p q with
-                | Some true => quick_eval p r
-                | Some false => Some false
-                | None => None
-                end
-  | POr q r => match quick_eval p q with
-               | Some true => Some true
-               | Some false => quick_eval p r
-               | None => None
-               end
-  | _ => None
+  | PAcct s => if pp_ok PpMatchAccount then Some (substr_ci s (p_acct p)) else None
+  | PNot q => if pp_ok PpNot then match quick_eval p q with Some b => Some (negb b) | None => None end else None
+  | PAnd q r => if pp_ok PpAnd then
+                  match quick_eval p q with
+                  | Some true => quick_eval p r
+                  | Some false => Some false
+                  | None => None
+                  end
+                else None
+  | POr q r => if pp_ok PpOr then
+                 match quick_eval p q with
+                 | Some true => Some true
+                 | Some false => quick_eval p r
+                 | None => None
+                 end
+               else None
+  | PConst b => if pp_ok PpValue then Some b else None
+  | PEq q r => if pp_ok PpEq then
+                 match quick_eval p q, quick_eval p r with
+                 | Some a, Some b => Some (Bool.eqb a b)
+                 | _, _ => None
+                 end
+               else None
+  | PQuery c q r => if pp_ok PpQuery then
+                      match quick_eval p c with
+                      | Some true => quick_eval p q
+                      | Some false => quick_eval p r
+                      | None => None
+                      end
+                    else None
+  | PPayee _ | PAmtLt _ | PAmtGt _ => None
+  end.
+
+(* the predicates the quick matcher can answer in full: nothing but the account is looked at *)
+Fixpoint acct_only (e : pred) : bool :=
+  match e with
+  | PAcct _ | PConst _ => true
+  | PNot q => acct_only q
+  | PAnd q r | POr q r | PEq q r => acct_only q && acct_only r
+  | PQuery c q r => acct_only c && acct_only q && acct_only r
+  | PPayee _ | PAmtLt _ | PAmtGt _ => false
   end.
 
 (* ------------------------------------------------------------------ rules *)
